@@ -304,6 +304,7 @@ impl Prop for C13Prop {
         vec![
             Sub { name: "ws-exhaustive", kind: SubKind::Enum { count: ws_total } },
             Sub { name: "ws-keywords", kind: SubKind::Enum { count: ws_keyword_cases().len() as u64 } },
+            Sub { name: "superscript-all", kind: SubKind::Enum { count: 4 * 12 * 401 } },
             Sub { name: "sign-runs", kind: SubKind::Enum { count: Ev::ALL.iter().map(|ev| 11 * ph_pool(*ev).len() as u64).sum() } },
             Sub { name: "long", kind: SubKind::Enum { count: super::long::all(true).len() as u64 * 4 } },
             Sub { name: "superscript-digits", kind: SubKind::Random { cases: tier.pick(100_000, 4_000_000), len: 40 } },
@@ -313,6 +314,20 @@ impl Prop for C13Prop {
         ]
     }
     fn gen_enum(&self, sub: &str, mut idx: u64, _tier: Tier) -> Option<Case> {
+        if sub == "superscript-all" {
+            // b^N against b with the superscript run for every N in 0..400 (not only random digit strings): a fast path
+            // for one base and a range of exponents differs at the few N where the platform pow is not correctly rounded
+            let bases = ["10", "2", "10.0", "(10)", "100", "5", "3", "0.1", "1.1", "7", "@", "0.5"];
+            let ev = [Ev::F64, Ev::Num, Ev::Dec, Ev::I64][(idx % 4) as usize];
+            let b = bases[((idx / 4) % 12) as usize];
+            let n = idx / 48;
+            if ev == Ev::I64 && b.contains('.') {
+                return None;
+            }
+            let mut case = Case::new(ev, format!("{}^{}", b, n), if ev == Ev::F64 { Val::F(10.0) } else { Val::default_for(ev) });
+            case.aux = vec![format!("{}{}", b, vocab::ascii_to_sup(&n.to_string())), "superscript".to_string()];
+            return Some(case);
+        }
         if sub == "sign-runs" {
             // runs of prefix signs against the same run split by redundant brackets, for every pool placeholder
             // (a run collapsed by parity skips the intermediate negations: -(-MIN) is a Float in eval_number)
